@@ -346,6 +346,13 @@ def Form.CleanAll : List Form → Prop
   | f :: fs => f.Clean ∧ Form.CleanAll fs
 end
 
+/-- `append_variables(sampleset, samples_like, sort_labels)` for ANY samples-like: `samples, labels = as_samples(samples_like)` (default
+    arguments), then the row-count / label-clash tests and `from_samples` of `SS.appendVars` -/
+def appendVariablesForm (s : SS) (f : Form) (sortLabels : Bool) : Option SS :=
+  match run {} f with
+  | .ok o => s.appendVars o.labels o.rows sortLabels
+  | .error _ => none
+
 /-! ### the standard encodings of one table -/
 
 /-- all the ways a caller can write the table `labels × rows` (one permutation of the keys per row for
